@@ -9,7 +9,7 @@ Six cooperating monitors, selected by case index:
  E  real threads with yield injection (sys.monitoring) on the shared-memory fit tasks: model equals n_jobs=1
  F  every completion order of the fit / hash-insert tasks through a permuting executor with recording dict
     proxies: disjoint write sets, no read of a foreign write, identical model for every order
- G  monitor A's comparison executed inside a forked multiprocessing child (the caller may itself be a pool worker)
+ G  monitor A's comparison executed inside a multiprocessing child (spawned) (the caller may itself be a pool worker)
 Half of the thread runs of A (and all of G) hand the GIL over every microsecond (sys.setswitchinterval), so that worker
 threads interleave inside pure-Python sections."""
 from mon import env  # noqa: F401
@@ -254,7 +254,7 @@ def _g_child(conn, cfg, ops):
 
 
 def run_G(rs, ctx, j):
-    """the same comparison as monitor A (threads vs n_jobs=1, switch-interval stress), executed inside a forked
+    """the same comparison as monitor A (threads vs n_jobs=1, switch-interval stress), executed inside a spawned
     multiprocessing child: what the library does must not depend on whether its caller is itself a worker process"""
     l, p = gen.ALL_COMBOS[(j * 7 + ctx.index // TOTAL * 5) % 48]
     cfg = gen.gen_cfg(rs, l, p, labels=gen.pick(rs, ["int", "str", "float"]), n_arms=int(gen.pick(rs, [2, 3, 4])),
@@ -262,8 +262,8 @@ def run_G(rs, ctx, j):
     cfg["_g_jobs"] = int(gen.pick(rs, [2, 3, 4]))
     nf = int(gen.pick(rs, [1, 2, 3]))
     ops = scenario_ops(rs, cfg, nf, [1, 3, int(gen.pick(rs, [9, 17, 40]))])
-    wit = {"cfg": cfg, "ops": ops, "where": "forked multiprocessing child, threads, switch interval 1e-6"}
-    c = mp.get_context("fork")
+    wit = {"cfg": cfg, "ops": ops, "where": "spawned multiprocessing child, threads, switch interval 1e-6"}
+    c = mp.get_context("spawn")  # a fresh interpreter: no lock or helper thread of this worker process is inherited
     parent, child = c.Pipe(duplex=False)
     pr = c.Process(target=_g_child, args=(child, cfg, ops))
     pr.start()
